@@ -211,11 +211,15 @@ function sameObs (A, B, relaxCoerce) {
 // string-coercion events later, keeping their relative order; if the run ends in an exception the
 // deferred coercions may never happen.
 function movedLater (inp, out, threw) {
+  // with nested templates the inner template completes (and coerces) before the outer one coerces its
+  // earlier substitutions, so deferred coercions need not come back in their original order
   const isC = (x) => x.startsWith('["coerce"') && x.endsWith(',"string"]')
   const deferred = []
   let i = 0
   for (const e of out) {
-    if (deferred.length && deferred[0] === e) { deferred.shift(); continue }
+    if (i < inp.length && inp[i] === e) { i++; continue }
+    const k = deferred.indexOf(e)
+    if (k >= 0) { deferred.splice(k, 1); continue }
     while (i < inp.length && inp[i] !== e && isC(inp[i])) deferred.push(inp[i++])
     if (i < inp.length && inp[i] === e) { i++; continue }
     return false
